@@ -322,6 +322,14 @@ func init() {
 					continue
 				}
 				_, canon := sc.execFn()(nil)
+				// the documented defaults: output to stdout, main input from stdin
+				for _, viaStdin := range []bool{false, true} {
+					o := sc.Call.CLIStdout(2, viaStdin)
+					total.Validated++
+					if got := o.String(); got != canon && o.Outcome != "timeout" {
+						total.Violate(sc.Family+":binary-stdio-differs", fmt.Sprintf("scenario %s: real binary writing to stdout (input from stdin: %v) gives %s; explored executions give %s", sc.Name, viaStdin, got, canon), schedCase{Scenario: *sc, Obs: got, Expect: canon})
+					}
+				}
 				for _, th := range []int{1, 2, 3, 4, 8, 16} {
 					for _, gmp := range []string{"1", "4", "16"} {
 						o, _ := sc.Call.CLI([]string{"GOMAXPROCS=" + gmp}, th)
